@@ -102,6 +102,7 @@ class Flow(object):
     self._where = None
     self._rcache = {}
     self._hpreds = None
+    self._synth = {}
 
   # ---------------------------------------------------------------- positions
   def where(self, node):
@@ -192,6 +193,17 @@ class Flow(object):
           for te, ve in zip(t.elts, stmt.value.elts):
             if isinstance(te, ast.Name) and te.id == name:
               return ve
+        elif isinstance(t, (ast.Tuple, ast.List)) and \
+            not any(isinstance(e, ast.Starred) for e in t.elts):
+          # `a, b = pair` binds a to pair[0]: unpacking and indexing are the same value
+          for i, te in enumerate(t.elts):
+            if isinstance(te, ast.Name) and te.id == name:
+              key = (id(stmt), name)
+              if key not in self._synth:
+                sub = ast.Subscript(value=stmt.value, slice=ast.Constant(value=i), ctx=ast.Load())
+                self._synth[key] = ast.copy_location(sub, stmt.value)
+                ast.fix_missing_locations(self._synth[key])
+              return self._synth[key]
       return None
     if isinstance(stmt, ast.AnnAssign) and isinstance(stmt.target, ast.Name) and \
         stmt.target.id == name:
@@ -287,6 +299,28 @@ class Flow(object):
         return
       out.append(Leaf(e, n, chain, conds))
     go(expr, nid, [nid], [], depth)
+    return out
+
+  def feeding(self, expr, nid, depth=10):
+    """[(expression, node id)] of everything `expr` (evaluated at nid) is computed from, through
+    the bindings of locals that reach each use (names bound by a comprehension / lambda inside an
+    expression are not followed) and through in-place mutations of those locals."""
+    out, seen = [], set()
+    def go(e, n, d):
+      out.append((e, n))
+      if d <= 0:
+        return
+      bound = _bound_inside(e)
+      for x in ast.walk(e):
+        if isinstance(x, ast.Name) and isinstance(x.ctx, ast.Load) and x.id not in bound:
+          defs, _ = self.reaching(x.id, n)
+          for dn in set(defs) | self.du.muts.get(x.id, set()):
+            if (x.id, dn) in seen:
+              continue
+            seen.add((x.id, dn))
+            for e2 in self.cfg.nodes[dn].exprs:
+              go(e2, dn, d - 1)
+    go(expr, nid, depth)
     return out
 
   def denotes(self, expr, nid, pred, depth=8):
